@@ -177,6 +177,13 @@ func owns(p *simProp, prop string) bool {
 	return false
 }
 
+// stopOn: a case ends at the first violation of a property this check owns or of a known finding.
+func stopOn(p *simProp) func(v sim.Violation) bool {
+	return func(v sim.Violation) bool {
+		return owns(p, v.Property) || stats.IsKnown(v.Property, v.Signature)
+	}
+}
+
 // judgeResult turns a case result into the verdict of one property check.
 func judgeResult(t fataler, p *simProp, res *sim.Result, replayFile string) (sig, detail string) {
 	col := stats.For(p.ID)
@@ -214,6 +221,7 @@ func runSimProp(t *testing.T, p *simProp) {
 	if p.Hooks != nil {
 		hooks = p.Hooks()
 	}
+	hooks.StopOn = stopOn(p)
 	rapid.Check(t, func(rt *rapid.T) {
 		n++
 		dir := fmt.Sprintf("%s/c%d", base, n)
@@ -282,6 +290,7 @@ func runSimCorpusFile(t *testing.T, p *simProp, base string, i int, f string, r 
 	if p.Hooks != nil {
 		hooks = p.Hooks()
 	}
+	hooks.StopOn = stopOn(p)
 	var script sim.CaseScript
 	if err := json.Unmarshal(r.Script, &script); err != nil {
 		t.Fatalf("%s: %v", f, err)
